@@ -130,6 +130,7 @@ def quantity(value, u_):
     o.fields["__arith__"] = _q_arith
     o.fields["__cmp__"] = _q_cmp
     o.fields["__getitem__"] = _q_getitem
+    o.fields["__setitem__"] = _q_setitem
     if isinstance(value, Arr):
         o.fields["__len__"] = value.shape[0] if value.shape else 1
     return finish_quantity(o)
@@ -145,6 +146,15 @@ def qval(q, u_to):
 
 def _q_getitem(ex, path, recv, idx, node):
     return quantity(index(recv.fields["value"], idx), recv.fields["unit"])
+
+
+def _q_setitem(ex, path, base, idx, value, node):
+    """q[idx] = v : v is converted to q's unit first (astropy)"""
+    from jvc.symexec import arr_store
+    v = qval(value, base.fields["unit"]) if is_q(value) else value
+    r = arr_store(base.fields["value"], idx, v)
+    path.assume(*[f for f in getattr(r, "facts", []) if f is not True and not any(f is g for g in path.pc)])
+    return quantity(r, base.fields["unit"])
 
 
 def _q_arith(op, a, b, ctx, path, line):
@@ -172,6 +182,8 @@ def _q_arith(op, a, b, ctx, path, line):
         if isinstance(b, int):
             return quantity(arith(op, a.fields["value"], b, ctx, path, line), unit_pow(a.fields["unit"], b))
         raise Unsupported("fractional power of a quantity")
+    if isinstance(op, ast.Mod) and is_q(a) and is_q(b) and a.fields["unit"].fields["dim"] == b.fields["unit"].fields["dim"]:
+        return quantity(arith(op, a.fields["value"], qval(b, a.fields["unit"]), ctx, path, line), a.fields["unit"])
     if isinstance(op, ast.Mod) and is_q(a):
         # Quantity % number: astropy converts to dimensionless first
         v = qval(a, U_ONE) if a.fields["unit"].fields["dim"] == U_ONE.fields["dim"] else None
@@ -354,3 +366,17 @@ def _tmax(ex, path, args, kwargs, node, fn):
     t = args[0]
     v = LIB["<Arr>.max"](ex, path, [t.fields["mjd"]], {}, node, fn)
     return time_obj(v)
+
+
+_prev_abs = LIB["numpy.abs"]
+
+
+@model("numpy.abs", doc="abs of a Quantity keeps the unit")
+def _qabs(ex, path, args, kwargs, node, fn):
+    v = args[0]
+    if is_q(v):
+        return quantity(_prev_abs(ex, path, [v.fields["value"]], kwargs, node, fn), v.fields["unit"])
+    return _prev_abs(ex, path, args, kwargs, node, fn)
+
+
+_prev_any = LIB["numpy.any"]
